@@ -31,6 +31,10 @@ def gen_message(rng, big=False):
         m = '<x>%s</x>' % body
     else:
         m = body if body.strip() else 'x'
+    if rng.random() < 0.2:
+        # what many servers put in front of every message; it is part of the message text the listeners must get
+        m = rng.choice(['<?xml version="1.0" encoding="UTF-8"?>', "<?xml version='1.0' encoding='utf-8' standalone='yes'?>\n",
+                        '<?xml version="1.0"?>', '<?xml-stylesheet href="x"?>', '<!-- c -->']) + m
     m = m.replace(']]>]]>', ']]>]] >')
     if rng.random() < 0.25:
         ws = rng.choice([' ', '\n', '\r\n', '\t ', ' ', ' ', '\x0b', ' \n '])
